@@ -364,6 +364,20 @@ pub fn check_case(c: &Case) -> Vec<CaseResult> {
             Ok(Ok(d)) => Ok(MV::from_value(d.value())),
             Ok(Err(e)) => Err(e.to_string()),
         };
+        // ... and when the same bytes arrive through a stream
+        let got_reader: Result<MV, String> = match catch(|| lexpr::from_reader_custom(std::io::Cursor::new(input.as_bytes()), q.to_lexpr())) {
+            Err(pm) => Err(format!("panic: {}", pm)),
+            Ok(Ok(v)) => Ok(MV::from_value(&v)),
+            Ok(Err(e)) => Err(e.to_string()),
+        };
+        let strip = |r: &Result<MV, String>| r.clone().map_err(|e| err_text_str(&e).to_string());
+        if strip(&got_reader) != strip(&got) {
+            out.push(Err(Failure::new(
+                format!("C08 reader-differs class={} pos={}", cls.trim_start_matches("tok:"), if c.position == 0 { "top" } else { "nested" }),
+                format!("{:?} under parser options #{}: from a str {}, from a stream {}", input, qi, short(&got), short(&got_reader)),
+                case(),
+            )));
+        }
         if got_datum != got {
             out.push(Err(Failure::new(
                 format!("C08 datum-api-differs class={} pos={}", cls.trim_start_matches("tok:"), if c.position == 0 { "top" } else { "nested" }),
